@@ -61,6 +61,7 @@ type Prog struct {
 	Order  []*Func // deterministic order
 	Dir    string
 	nfiles int
+	cg     *CG
 }
 
 // Short strips the module prefix from an import path.
